@@ -68,6 +68,7 @@ class C10(Oracle):
             R.counts["F4:empty_batches"] += 1
 
     def segment_end(self, op):
+        self.check_streams()
         R = self.R
         if op[0] == "time":
             # every stream's next arrival (the running sum of ALL samples drawn so far) lies at or beyond the horizon
